@@ -18,7 +18,8 @@
  *   cursor rich  w h xh yh <pix> <mask> fr fg fb br bg bb   ok
  *   cursor alpha w h xh yh <pix> <alpha> premult            ok   (mask by rfbMakeMaskFromAlphaSource)
  *   client id raw|x|rich [f8|f8b|f16|f16b|f32|f32b]         ok   (SetPixelFormat; default: server's format)
- *   setenc id raw|x|rich    (SetEncodings again: switch)    ok
+ *   setenc id raw|x|rich|enc:<list>  (SetEncodings again)   ok   (list: raw,copyrect,x,rich,pos in sending order)
+ *   copy x1 y1 x2 y2 dx dy  (rfbDoCopyRect, dest rectangle) ok
  *   ptr id x y buttons                                      pos=X,Y pc=<id|-> moved=<id>:<b>,...
  *   req id incr x y w h                                     ok
  *   failnext id k       (k-th write from now on fails)      ok
@@ -44,7 +45,7 @@ extern void (*rfbVerifPreEncodeHook)(rfbClientPtr, sraRegionPtr, sraRegionPtr, i
 static vh_conn conns[MAXC];
 static int used[MAXC], kind[MAXC];       /* kind: 0 raw, 1 x, 2 rich */
 static int fullreq[MAXC];                /* a request covering the whole screen is pending */
-static unsigned char *pic[MAXC], *cov[MAXC];
+static unsigned char *pic[MAXC], *cov[MAXC], *ccov[MAXC];   /* cov: pixels got as Raw, ccov: as CopyRect */
 /* the client's pixel format (SetPixelFormat); CB = its bytes per pixel; xl = differs from the server's */
 typedef struct { const char *name; int bytes, depth, rm, gm, bm, rs, gs, bs; } vfmt;
 static const vfmt FMTS[] = {
@@ -249,6 +250,10 @@ static void inv_client(int id) {
   while (sraRgnIteratorNext(it, &r))
     for (y = r.y1; y < r.y2; y++) for (x = r.x1; x < r.x2; x++) if (x >= 0 && y >= 0 && x < W && y < H) pend[y * W + x] = 1;
   sraRgnReleaseIterator(it);
+  it = sraRgnGetIterator(cl->copyRegion);              /* a scheduled copy is pending, too */
+  while (sraRgnIteratorNext(it, &r))
+    for (y = r.y1; y < r.y2; y++) for (x = r.x1; x < r.x2; x++) if (x >= 0 && y >= 0 && x < W && y < H) pend[y * W + x] = 1;
+  sraRgnReleaseIterator(it);
   check_pixels("inv", id, cl->cursorX, cl->cursorY, pend);
   free(pend);
 }
@@ -277,6 +282,18 @@ static int decode(int id, vh_buf *shape, int *havepos, int *posx, int *posy) {
           memset(cov[id] + (size_t)(y + j) * W + x, 1, w);
         }
         off += len;
+      } else if (enc == rfbEncodingCopyRect) {
+        int sx, sy; unsigned char *tmp;
+        if (off + 4 > o->n) return -1;
+        sx = be16(o->p + off); sy = be16(o->p + off + 2); off += 4;
+        if (x + w > W || y + h > H || sx + w > W || sy + h > H) return -1;
+        tmp = (unsigned char *)malloc((size_t)w * h * CB[id] + 1);
+        for (j = 0; j < h; j++) memcpy(tmp + (size_t)j * w * CB[id], pic[id] + ((size_t)(sy + j) * W + sx) * CB[id], (size_t)w * CB[id]);
+        for (j = 0; j < h; j++) {
+          memcpy(pic[id] + ((size_t)(y + j) * W + x) * CB[id], tmp + (size_t)j * w * CB[id], (size_t)w * CB[id]);
+          memset(ccov[id] + (size_t)(y + j) * W + x, 1, w);
+        }
+        free(tmp);
       } else if (enc == (int32_t)rfbEncodingXCursor || enc == (int32_t)rfbEncodingRichCursor) {
         size_t rb = (w + 7) / 8, len;
         char hdr[64];
@@ -389,24 +406,41 @@ static int op_cursor_(char **tok, int n) {
 /* ---------------------------------------------------------------- clients */
 static void put32(unsigned char *p, uint32_t v) { p[0] = v >> 24; p[1] = v >> 16; p[2] = v >> 8; p[3] = v; }
 
-static int kind_of(const char *k) {
-  if (!strcmp(k, "raw")) return 0; if (!strcmp(k, "x")) return 1; if (!strcmp(k, "rich")) return 2; return -1;
+/* the encodings list of a client: `raw` / `x` / `rich` (standard lists) or `enc:a,b,c` in the order
+   it is to be sent (raw, copyrect, x, rich, pos).  kind[] (what the decoder / oracle expect) follows
+   from the SET: rich if RichCursor is listed, else x if XCursor is, else raw. */
+static int32_t enclist[MAXC][16]; static int nenc[MAXC];
+static int parse_encs(int id, const char *k) {
+  int n = 0, hasx = 0, hasr = 0; char buf[256], *p, *q;
+  if (!strcmp(k, "raw")) { enclist[id][n++] = rfbEncodingRaw; }
+  else if (!strcmp(k, "x")) { enclist[id][n++] = rfbEncodingRaw; enclist[id][n++] = rfbEncodingXCursor; enclist[id][n++] = rfbEncodingPointerPos; hasx = 1; }
+  else if (!strcmp(k, "rich")) { enclist[id][n++] = rfbEncodingRaw; enclist[id][n++] = rfbEncodingRichCursor; enclist[id][n++] = rfbEncodingPointerPos; hasr = 1; }
+  else if (!strncmp(k, "enc:", 4) && strlen(k) < sizeof buf) {
+    strcpy(buf, k + 4);
+    for (p = buf; p && *p && n < 16; p = q) {
+      q = strchr(p, ','); if (q) *q++ = 0;
+      if (!strcmp(p, "raw")) enclist[id][n++] = rfbEncodingRaw;
+      else if (!strcmp(p, "copyrect")) enclist[id][n++] = rfbEncodingCopyRect;
+      else if (!strcmp(p, "x")) { enclist[id][n++] = rfbEncodingXCursor; hasx = 1; }
+      else if (!strcmp(p, "rich")) { enclist[id][n++] = rfbEncodingRichCursor; hasr = 1; }
+      else if (!strcmp(p, "pos")) enclist[id][n++] = rfbEncodingPointerPos;
+      else return -1;
+    }
+  } else return -1;
+  nenc[id] = n;
+  return hasr ? 2 : hasx ? 1 : 0;
 }
 static void send_encodings(int id) {
-  unsigned char b[64]; int ne = 0, i; int32_t encs[4];
-  encs[ne++] = rfbEncodingRaw;
-  if (kind[id] == 1) { encs[ne++] = rfbEncodingXCursor; encs[ne++] = rfbEncodingPointerPos; }
-  if (kind[id] == 2) { encs[ne++] = rfbEncodingRichCursor; encs[ne++] = rfbEncodingPointerPos; }
-  b[0] = rfbSetEncodings; b[1] = 0; b[2] = 0; b[3] = (unsigned char)ne;
-  for (i = 0; i < ne; i++) put32(b + 4 + 4 * i, (uint32_t)encs[i]);
-  vh_send(&conns[id], b, 4 + 4 * ne);
+  unsigned char b[4 + 4 * 16]; int i;
+  b[0] = rfbSetEncodings; b[1] = 0; b[2] = 0; b[3] = (unsigned char)nenc[id];
+  for (i = 0; i < nenc[id]; i++) put32(b + 4 + 4 * i, (uint32_t)enclist[id][i]);
+  vh_send(&conns[id], b, 4 + 4 * nenc[id]);
   rfbProcessClientMessage(conns[id].cl);
 }
 
 static int op_client(int id, const char *k, const char *fname) {
   unsigned char b[64]; vh_conn *c = &conns[id]; const vfmt *cf = NULL;
-  if (id < 0 || id >= MAXC || used[id] || !scr || kind_of(k) < 0) return -1;
-  kind[id] = kind_of(k);
+  { int kd; if (id < 0 || id >= MAXC || used[id] || !scr || (kd = parse_encs(id, k)) < 0) return -1; kind[id] = kd; }
   if (fname) { size_t i; for (i = 0; i < sizeof FMTS / sizeof FMTS[0]; i++) if (!strcmp(fname, FMTS[i].name)) cf = &FMTS[i]; if (!cf) return -1; }
   used[id] = 1;
   if (vh_connect_pre(scr, c, "RFB 003.008\n", 12) < 0 || !c->cl) return -1;
@@ -430,6 +464,7 @@ static int op_client(int id, const char *k, const char *fname) {
   vh_drain(c); vh_buf_reset(&c->out);
   pic[id] = (unsigned char *)calloc((size_t)W * H, CB[id]);
   cov[id] = (unsigned char *)calloc((size_t)W * H, 1);
+  ccov[id] = (unsigned char *)calloc((size_t)W * H, 1);
   return 0;
 }
 
@@ -471,10 +506,17 @@ int main(void) {
       puts(op_cursor(tok, n) == 0 ? "ok" : "bad-op");
     } else if (!strcmp(tok[0], "client") && (n == 3 || n == 4)) {
       puts(op_client(atoi(tok[1]), tok[2], n == 4 ? tok[3] : NULL) == 0 ? "ok" : "bad-op");
+    } else if (!strcmp(tok[0], "copy") && n == 7) {
+      int x1 = atoi(tok[1]), y1 = atoi(tok[2]), x2 = atoi(tok[3]), y2 = atoi(tok[4]), dx = atoi(tok[5]), dy = atoi(tok[6]);
+      /* destination rectangle and its source (displaced by -(dx,dy)) inside the framebuffer */
+      if (x1 < 0 || y1 < 0 || x1 >= x2 || y1 >= y2 || x2 > W || y2 > H || x1 - dx < 0 || y1 - dy < 0 || x2 - dx > W || y2 - dy > H) { puts("bad-op"); continue; }
+      rfbDoCopyRect(scr, x1, y1, x2, y2, dx, dy);
+      puts("ok");
     } else if (!strcmp(tok[0], "setenc") && n == 3) {
       int id = atoi(tok[1]);
-      if (!alive(id) || kind_of(tok[2]) < 0) { puts("bad-op"); continue; }
-      kind[id] = kind_of(tok[2]);
+      int kd;
+      if (!alive(id) || (kd = parse_encs(id, tok[2])) < 0) { puts("bad-op"); continue; }
+      kind[id] = kd;
       send_encodings(id);
       puts("ok");
     } else if (!strcmp(tok[0], "ptr") && n == 5) {
@@ -504,7 +546,7 @@ int main(void) {
       puts("ok");
     } else if (!strcmp(tok[0], "pump") && n == 1) {
       int i; uint64_t h0 = fbhash();
-      for (i = 0; i < MAXC; i++) { memset(&st[i], 0, sizeof st[i]); if (used[i] && cov[i]) memset(cov[i], 0, (size_t)W * H); }
+      for (i = 0; i < MAXC; i++) { memset(&st[i], 0, sizeof st[i]); if (used[i] && cov[i]) { memset(cov[i], 0, (size_t)W * H); memset(ccov[i], 0, (size_t)W * H); } }
       rfbProcessEvents(scr, 0);
       for (i = 0; i < MAXC; i++) {
         vh_buf shape = {0, 0, 0}; int havepos = 0, px = 0, py = 0, perr = 0, dead;
@@ -519,8 +561,9 @@ int main(void) {
         if (st[i].res && !dead) {
           printf(" shape="); if (shape.n) fwrite(shape.p, 1, shape.n, stdout); else putchar('-');
           if (havepos) printf(" pos=%d,%d", px, py); else printf(" pos=-");
-          printf(" cov=%016llx pic=%016llx%s\n", (unsigned long long)vh_fnv(cov[i], (size_t)W * H),
-                 (unsigned long long)vh_fnv(pic[i], (size_t)W * H * CB[i]), perr ? " PARSE-ERROR" : "");
+          printf(" cov=%016llx pic=%016llx ccov=%016llx%s\n", (unsigned long long)vh_fnv(cov[i], (size_t)W * H),
+                 (unsigned long long)vh_fnv(pic[i], (size_t)W * H * CB[i]),
+                 (unsigned long long)vh_fnv(ccov[i], (size_t)W * H), perr ? " PARSE-ERROR" : "");
         } else printf(" closed\n");
         /* direct oracle, part 1: the application's framebuffer is bit-identical after the update */
         if (st[i].after != st[i].before) printf("oracle c%d BAD framebuffer changed by update (res=%d)\n", i, st[i].res);
@@ -544,7 +587,7 @@ int main(void) {
     for (i = 0; i < MAXC; i++) if (used[i]) {
       if (conns[i].peer >= 0) close(conns[i].peer);
       if (conns[i].cl) { rfbCloseClient(conns[i].cl); rfbClientConnectionGone(conns[i].cl); }
-      free(pic[i]); free(cov[i]); free(conns[i].out.p);
+      free(pic[i]); free(cov[i]); free(ccov[i]); free(conns[i].out.p);
     }
     { char *fb = scr->frameBuffer; rfbScreenCleanup(scr); free(fb); }
   }
